@@ -35,3 +35,15 @@ Theorem C11_parse_encode_partial_F1 : forall tables,
   wf_program tables = true -> in_fragment_F1 tables = true -> parse_encode_statement tables.
 Proof. exact parse_encode_F1. Qed.
 Print Assumptions C11_parse_encode_partial_F1.
+
+(** Fragment F2 ([in_fragment_F2], a boolean) = F1 + Method declarations: ONE table; every item is [Name(SEG, c)],
+    [Device(SEG){ items }] or [Method(SEG, flags){ items }] with single-NameSeg names; the bodies of Devices and Methods
+    consist of items of the fragment again (so a Method body holds declarations only - possibly none; no executable
+    statements), nested to any depth; any admissible PkgLength width; the encoded table is shorter than 2^28 bytes.
+    Productions inside the fragment: DefName, DefDevice, DefMethod (PkgLength, NameString = NameSeg, MethodFlags,
+    TermList of DefName / DefDevice / DefMethod), DataRefObject = integer constant.  F1 is the Method-free part of F2
+    ([in_fragment_F1] = the same recogniser + "no Method anywhere"). *)
+Theorem C11_parse_encode_partial_F2 : forall tables,
+  wf_program tables = true -> in_fragment_F2 tables = true -> parse_encode_statement tables.
+Proof. exact parse_encode_F2. Qed.
+Print Assumptions C11_parse_encode_partial_F2.
